@@ -9,14 +9,15 @@ text = f'''<!-- SEEDED-BEGIN -->
 ## 13. Seeded breaking changes and the checks that catch them
 
 {n} changes to jig/lisp were written by fresh sub-agents that saw only the text of one property and a
-scratch worktree (nothing from /verif), in six rounds. Rounds 2–4 were told what earlier rounds had produced so as
+scratch worktree (nothing from /verif), in seven rounds. Rounds 2–4 were told what earlier rounds had produced so as
 not to repeat it; round 3 was asked for changes needing a conjunction of rare conditions; in round 4 the agents for
 the sequential properties (C01–C06, C12–C20) were additionally told, in prose, which workload families the checks
 already generate and asked to aim outside them (an adversarial round: it can only lower the detection rate; the
 agents for C07–C11 in that round got no such description); round 5 went back to the plain brief (property text, scratch
 worktree, the earlier changes for that property to keep away from) and asked for two subtle changes per property:
 18 of its 40 were missed by the checks as they stood, and 20 of the 40 of round 6 (same brief, told to keep away from
-everything earlier): the plain brief finds more gaps than the adversarial one did. Every change compiles, passes the 48 baseline tests and comes with a demonstration that
+everything earlier): the plain brief finds more gaps than the adversarial one did. Round 7 (one change per property, same brief): 11 of 20
+missed at first, one of them (C17-m11) outside its statement. Every change compiles, passes the 48 baseline tests and comes with a demonstration that
 fails with it and passes without; each was confirmed with `bin/seedverify.sh` in a scratch worktree, then the
 property's check was run against a scratch worktree with the change applied (`bin/seedrun.sh`, /repo untouched).
 `seeded/<id>/` holds patch.diff, demo_test.go, meta.json (what it breaks, what it needs to manifest, how to run the
@@ -24,7 +25,7 @@ demonstration) and result.json (what was run, the witness keys reported).
 
 Outcome: {n - oos} of {n} are reported by the quick tier of their property's check. {missed} of them were missed when
 first tried; each miss was answered by more observability or workload (never by loosening an oracle) and is marked
-below. {oos} change is not a violation of its statement as worded and is deliberately not reported.
+below. {oos} changes are not violations of their statements as worded and are deliberately not reported.
 
 {table}
 <!-- SEEDED-END -->'''
